@@ -52,6 +52,15 @@ pub struct ACall {
     pub unexpected: Vec<String>,
     /// phase label for CTX lines printed from inside host callbacks
     pub ctx_prefix: String,
+    /// borrow handles (of imported resources) lent to the running async export call
+    pub lent: Vec<u32>,
+    /// ... and those the guest has dropped so far (`resource.drop`)
+    pub dropped: Vec<u32>,
+    /// borrows still held at the moment of `task.return` (a trap in the canonical ABI)
+    pub held_at_return: Option<Vec<u32>>,
+    /// `resource.drop` of a handle that was not lent / already dropped
+    pub bad_drops: Vec<u32>,
+    pub borrow_events: Vec<String>,
 }
 
 thread_local! {
@@ -209,6 +218,13 @@ fn task_return_called(link: &str, flat: &[CoreVal]) -> Option<CoreVal> {
         }
     });
     let Some(result) = known else { return None };
+    with_acall(|a| {
+        if !a.lent.is_empty() && a.held_at_return.is_none() {
+            let held: Vec<u32> = a.lent.iter().copied().filter(|h| !a.dropped.contains(h)).collect();
+            a.held_at_return = Some(held);
+        }
+        a.borrow_events.push("task.return".to_string());
+    });
     ctx_phase("host-lifts-task-return");
     let lifted: Result<Option<Val>, String> = match &result {
         None => {
@@ -251,6 +267,21 @@ pub fn import_called(index: usize, flat: &[CoreVal]) -> Option<CoreVal> {
         async_lower_called(link, flat)
     } else if link.contains("|[task-return]") {
         task_return_called(link, flat)
+    } else if link.contains("|[resource-drop]") {
+        // borrow accounting of the running async export call (resources are only used as
+        // borrowed parameters of exports in C08 worlds)
+        let h = flat.first().map(|v| v.bits() as u32).unwrap_or(0);
+        with_acall(|a| {
+            if a.exp.is_some() {
+                if a.lent.contains(&h) && !a.dropped.contains(&h) {
+                    a.dropped.push(h);
+                } else {
+                    a.bad_drops.push(h);
+                }
+                a.borrow_events.push(format!("resource.drop({h})"));
+            }
+        });
+        None
     } else {
         rsguest_host::import_called(index, flat)
     }
